@@ -254,7 +254,7 @@ func run(e *core.Env) {
 			a := tp.Intn(n)
 			A := ms.Nodes[a]
 			tok := newToken()
-			initTTL := []int{32, 2, 3, 5, 33, 64, 255, 1}[tp.Intn(8)]
+			initTTL := []int{32, 2, 3, 5, 33, 64, 255, 1, 0}[tp.Intn(9)] // (0: what a non-conforming neighbour could hand over)
 			t := &tracked{token: tok, initTTL: initTTL}
 			trk = append(trk, t)
 			var dst netip.Addr
